@@ -28,19 +28,25 @@ for p in pats:
         vio = [l for l in out.split("\n") if l.startswith("VIOLATION")]
         deg = [l for l in out.split("\n") if l.startswith("DEGRADED")]
         how = ""
-        if vio:
-            rp = vio[0].split("replay=")[1].split()[0]
+        hows = []
+        for v in vio[:12]:
+            rp = v.split("replay=")[1].split()[0]
             try:
                 j = json.load(open(rp))
-                how = j.get("found_by", "")
+                h = j.get("found_by", "") or (j.get("id", "")[:60])
                 if j.get("obligations"):
-                    how += ": " + ", ".join(o["name"] for o in j["obligations"][:3])
+                    h += ": " + ", ".join(o["name"] for o in j["obligations"][:3])
                 elif j.get("obligation"):
-                    how += ": " + j["obligation"]
+                    h += ": " + j["obligation"]
                 if j.get("input") is not None:
-                    how += " [failing input replayed]"
+                    h += " [failing input replayed]"
+                if h not in hows:
+                    hows.append(h)
             except Exception as e:
-                how = "?"
+                pass
+        # contract obligations first, then bounded cases
+        hows.sort(key=lambda h: (not h.startswith("govc"), h))
+        how = "; ".join(hows[:3])
         res = "detected" if vio else ("engine error (exit 2)" if r.returncode == 2 else "MISSED")
         rows.append({"seed": rel, "property": prop, "result": res, "violations": len(vio), "how": how[:300], "degraded": len(deg), "secs": round(time.time() - t0)})
         print(rows[-1], flush=True)
